@@ -9,6 +9,7 @@ CONSTANTS
   CopyUnderLock = TRUE
   KeyRecheck = TRUE
   ReleaseLocks = TRUE
+  NxAtomic = TRUE
 INVARIANTS TypeOK Inv_C07_HitOwnValue Inv_TableKey Inv_PoolBlank Inv_BufOnce Inv_CopySource
-PROPERTIES Returns
+PROPERTIES Returns NxNeverDisplaces
 CHECK_DEADLOCK FALSE
